@@ -55,7 +55,10 @@ GradSame(r, a, b) == a.grad.err = b.grad.err /\ Len(a.grad.out) = Len(b.grad.out
 AnyTaint(r) == \E s \in 1..NS(r) : Tainted(r, s)
 IntervalSame(r, a, b) == ~a.interval.has \/ AnyTaint(r) \/
       (a.interval.err = b.interval.err /\ Len(a.interval.out) = Len(b.interval.out) /\
-       \A o \in 1..Len(a.interval.out) : SeqSame(a.interval.out[o], b.interval.out[o]))
+       \* interval bounds are compared as numbers: the sign of a zero bound carries no
+       \* meaning for an interval (Interval::and_choice returns +0 for an operand [-0, -0])
+       \A o \in 1..Len(a.interval.out) : Len(a.interval.out[o]) = Len(b.interval.out[o]) /\
+            \A k \in 1..Len(a.interval.out[o]) : SameZ(a.interval.out[o][k], b.interval.out[o][k]))
 
 Fails(r) ==
   IF ~r.ok THEN {"simplify-failed"} ELSE
